@@ -212,8 +212,11 @@ func francisQRstep(H, U Matrix, p, q int, inSitu *InSitu, exceptional bool) {
       householder.ApplyLeft(h, beta, nu, t4.Slice(s-1,n), t1)
     }
     {
-      h := H22.Slice(0, n, k, k+3)
-      householder.ApplyRight(h, beta, nu, t4.Slice(0,n), t1)
+      // the rows below r are zero in exact arithmetic (Hessenberg form plus
+      // bulge), in practice they hold the rounding errors of the entries
+      // annihilated before, which must not re-enter the iteration
+      h := H22.Slice(0, r, k, k+3)
+      householder.ApplyRight(h, beta, nu, t4.Slice(0,r), t1)
     }
     {
       h := H12.Slice(0, p, k, k+3)
